@@ -310,3 +310,9 @@ def run(ctx, eng):
                'the handler that terminates the connection passes '
                'e.error_code on, and no broader handler intercepts the '
                'exception before it')
+    cm.include(ctx, eng, 'C04',
+               lambda o: o.rule == 'FLOW.delta' and
+               o.where.endswith('_inbound_flow_control_change_from_settings'),
+               'a locally requested INITIAL_WINDOW_SIZE reaches each stream '
+               'window through window_opened, whose overflow guard makes the '
+               '2^31-1 violation a FLOW_CONTROL_ERROR')
